@@ -176,9 +176,9 @@ def _dispatch(ctx) -> None:
 
 def run(ctx) -> None:
     ctx.explanation = EXPLANATION
-    _nav(ctx)
-    _clones(ctx)
-    _dispatch(ctx)
+    ctx.step(_nav, ctx)
+    ctx.step(_clones, ctx)
+    ctx.step(_dispatch, ctx)
     ctx.expect_min("NAV", 4)
     ctx.expect_min("CLONE", 18)
     ctx.expect_min("DISPATCH", 30)
